@@ -30,9 +30,10 @@ const (
 	eReadFrom
 	eChWriteBytes // Channel.Write([]byte) through the pipeline
 	eChWriteBuf   // Channel.Write(*bytes.Buffer)
+	eReadFromFrag // ReadFrom a reader that delivers its content in short reads
 )
 
-var epName = []string{"Write1", "Writev/1", "Writev/2", "Writev/3", "CtxWrite1", "CtxWritev/1", "CtxWritev/2", "Writer.Write", "ReadFrom", "Channel.Write([]byte)", "Channel.Write(*Buffer)"}
+var epName = []string{"Write1", "Writev/1", "Writev/2", "Writev/3", "CtxWrite1", "CtxWritev/1", "CtxWritev/2", "Writer.Write", "ReadFrom", "Channel.Write([]byte)", "Channel.Write(*Buffer)", "ReadFrom/short-reads"}
 
 func segs(p []byte, n int) [][]byte {
 	switch n {
@@ -48,6 +49,16 @@ func segs(p []byte, n int) [][]byte {
 type onlyReader struct{ r io.Reader }
 
 func (o onlyReader) Read(p []byte) (int, error) { return o.r.Read(p) }
+
+// shortReader hands out at most 10 bytes per Read.
+type shortReader struct{ r io.Reader }
+
+func (o shortReader) Read(p []byte) (int, error) {
+	if len(p) > 10 {
+		p = p[:10]
+	}
+	return o.r.Read(p)
+}
 
 func do(ch netty.Channel, ep int, p []byte) (int64, error) {
 	bg := context.Background()
@@ -67,6 +78,8 @@ func do(ch netty.Channel, ep int, p []byte) (int64, error) {
 		return int64(n), err
 	case eReadFrom:
 		return ch.ReadFrom(onlyReader{bytes.NewReader(p)})
+	case eReadFromFrag:
+		return ch.ReadFrom(shortReader{bytes.NewReader(p)})
 	case eChWriteBytes:
 		return int64(len(p)), ch.Write(p)
 	case eChWriteBuf:
@@ -208,11 +221,18 @@ func build(tier string) []*explore.Scenario {
 		{[]int{eReadFrom, eWrite1, eReadFrom}, []int{1024, 1024, 2048}},
 		{[]int{eChWriteBytes, eChWriteBuf, eChWriteBytes}, []int{8, 1500, 2048}},
 		{[]int{eCtxWritev2, eCtxWritev1, eWritev1}, []int{1500, 2048, 1500}},
+		{[]int{eReadFromFrag, eWrite1, eReadFromFrag}, []int{20, 8, 15}},
 	}
 	for _, cfg := range cfgs {
 		for _, m := range mixes {
 			for _, scr := range []bool{false, true} {
-				scs = append(scs, scenario(cfg, m.eps, m.sizes, scr, bound))
+				sc := scenario(cfg, m.eps, m.sizes, scr, bound)
+				if m.eps[0] == eReadFromFrag {
+					// many small chunks: one preemption less, sharded
+					sc.Bound = bound - 1
+					sc.Shards = 4
+				}
+				scs = append(scs, sc)
 			}
 		}
 	}
